@@ -88,6 +88,8 @@ struct Truth {
     /// the liar answers every shred request at once with the data/coding tag flipped (and answers
     /// everything else correctly): a fast peer that spoils as many requests as it can
     focused_tag_flipper: bool,
+    /// the liar gives the same kind of (wrong) answer every time, immediately
+    single_minded: Option<u64>,
 }
 
 fn mutate_proof(p: &DoubleMerkleProof) -> DoubleMerkleProof {
@@ -118,6 +120,11 @@ fn liar_answer(req: &Req, t: &Truth) -> Vec<RepairResponse> {
     let root_of = |k: usize| t.blk.shreds[k][0].slice_root().clone();
     let mut out = Vec::new();
     let about_target = req.block == t.id;
+    // a single-minded liar uses one and the same wrong answer for every request of a kind
+    let pick = |n: u64| match t.single_minded {
+        Some(f) => f % n,
+        None => kernel::choose(L, n),
+    };
     if t.focused_tag_flipper && about_target {
         match req.variant {
             0 => {
@@ -145,7 +152,7 @@ fn liar_answer(req: &Req, t: &Truth) -> Vec<RepairResponse> {
         0 => {
             let last = n_slices - 1;
             let correct = RepairResponse::LastSliceRoot(rt.clone(), si(last), root_of(last), t.blk.tree.create_proof(last));
-            match kernel::choose(L, 9) {
+            match pick(9) {
                 0 => {
                     if about_target {
                         out.push(correct)
@@ -200,7 +207,7 @@ fn liar_answer(req: &Req, t: &Truth) -> Vec<RepairResponse> {
         1 => {
             let k = (req.slice.unwrap_or(0) as usize).min(n_slices - 1);
             let correct = RepairResponse::SliceRoot(rt.clone(), root_of(k), t.blk.tree.create_proof(k));
-            match kernel::choose(L, 7) {
+            match pick(7) {
                 0 => out.push(correct),
                 1 => out.push(RepairResponse::Nack(rt)),
                 2 => {
@@ -231,7 +238,7 @@ fn liar_answer(req: &Req, t: &Truth) -> Vec<RepairResponse> {
             let k = (req.slice.unwrap_or(0) as usize).min(n_slices - 1);
             let i = (req.shred.unwrap_or(0) as usize).min(TOTAL_SHREDS - 1);
             let genuine = t.blk.shreds[k][i].as_shred().clone();
-            match kernel::choose(L, 8) {
+            match pick(8) {
                 0 => out.push(RepairResponse::Shred(rt, genuine)),
                 1 => out.push(RepairResponse::Nack(rt)),
                 2 => {
@@ -293,7 +300,7 @@ async fn liar_task(net: SimNet<RepairResponse, RepairRequest>, truth: Arc<Truth>
         kernel::event(&format!("liar got v{} slice={:?} shred={:?}", r.variant, r.slice, r.shred));
         for resp in liar_answer(&r, &truth) {
             // optional delay before answering
-            let d = if truth.focused_tag_flipper { 0 } else { kernel::choose(L, 4) * 100 };
+            let d = if truth.focused_tag_flipper || truth.single_minded.is_some() { 0 } else { kernel::choose(L, 4) * 100 };
             if d > 0 {
                 tokio::time::sleep(Duration::from_millis(d)).await;
             }
@@ -334,7 +341,11 @@ pub fn run(prop: &str, max_slices: usize) -> WorldOutcome {
     if focused_tag_flipper {
         kernel::fault("liar_is_a_fast_tag_flipper");
     }
-    let truth = Arc::new(Truth { id: id.clone(), blk, alt_first, other, focused_tag_flipper });
+    let single_minded = if !focused_tag_flipper && kernel::choose(G, 4) == 1 { Some(2 + kernel::choose(G, 7)) } else { None };
+    if single_minded.is_some() {
+        kernel::fault("liar_is_single_minded_and_fast");
+    }
+    let truth = Arc::new(Truth { id: id.clone(), blk, alt_first, other, focused_tag_flipper, single_minded });
 
     // peers
     let mut roles = vec![PeerRole::Silent; n];
